@@ -336,7 +336,11 @@ class Ctx:
 
     def finish(self):
         wall = time.time() - self.t0
+        seen_roles = set()
         for role, what in self.known_hits:
+            if role in seen_roles:
+                continue
+            seen_roles.add(role)
             print("KNOWN-FINDING: property=%s %s -- %s" % (self.pid, role, what))
         rdir = os.path.join(VERIF, "replays", self.pid)
         vio_paths = []
